@@ -122,3 +122,45 @@ Example C01_reduction_example :
   reduce_ok din dout = true /\ reduce_axes din = [1%nat] /\ llens (kept din) = [2; 4] /\
   drop_axes (reduce_axes din) [7; 8; 9] = [7; 9].
 Proof. vm_compute. repeat split; reflexivity. Qed.
+
+(* dot on the matmul path (numpy.numpylike).  Model/Lower.v ([lower_dot]): the axes are classified into batch / contracted /
+   kept-left / kept-right, both operands are rearranged to (batch) (left) (contracted) and (batch) (contracted) (right), the
+   backend's batched matmul is applied and its (batch) (left) (right) result is rearranged into the output.  matmul itself is
+   numpy's (trusted); around it, for every nesting, number of axes and size: each element of either operand reaches matmul
+   at the row-major numbers of its batch / kept / contracted loop indices, and what matmul returns at the numbers of the
+   batch / left / right indices is found at the output expression's position. *)
+Theorem C01_dot_operands_are_placed_for_matmul :
+  forall (V : Type) (inp : nat -> entries V) F BC CC (d1 d2 dout : list pex),
+  dot_ok d1 d2 dout = true ->
+  forall (rho : env) (v : V), in_bounds rho d1 -> in_bounds rho d2 ->
+  (In (map (pidx rho) d1, v) (inp 0%nat) -> In (map (pidx rho) (dot_lhs d1 d2 dout), v) (nth 0 (dot_operands V inp F BC CC d1 d2 dout) [])) /\
+  (In (map (pidx rho) d2, v) (inp 1%nat) -> In (map (pidx rho) (dot_rhs d1 d2 dout), v) (nth 1 (dot_operands V inp F BC CC d1 d2 dout) [])).
+Proof.
+  intros V inp F BC CC d1 d2 dout Hok rho v B1 B2. split.
+  - exact (dot_left_operand V inp F BC CC d1 d2 dout Hok rho v B1).
+  - exact (dot_right_operand V inp F BC CC d1 d2 dout Hok rho v B1 B2).
+Qed.
+Print Assumptions C01_dot_operands_are_placed_for_matmul.
+
+Theorem C01_dot_group_coordinate_is_rowmajor : forall rho (L : list (N * N * bool)),
+  pidx rho (PFl (map leaf_ax L)) = ravel (map (fun x => lookup rho (fst (fst x))) L) (map (fun x => snd (fst x)) L).
+Proof. exact pidx_group. Qed.
+Print Assumptions C01_dot_group_coordinate_is_rowmajor.
+
+Theorem C01_dot_result_is_placed_by_the_output :
+  forall (V : Type) (inp : nat -> entries V) F BC CC (d1 d2 dout : list pex),
+  dot_ok d1 d2 dout = true ->
+  forall (rho : env) (v : V), in_bounds rho d1 -> in_bounds rho d2 -> in_bounds rho dout ->
+  In (map (pidx rho) (dot_mid d1 d2 dout), v) (dot_product V inp F BC CC d1 d2 dout) ->
+  In (map (pidx rho) dout, v) (meval V inp F BC CC (lower_dot d1 d2 dout)).
+Proof. intros V inp F BC CC d1 d2 dout Hok rho v. exact (lower_dot_correct V inp F BC CC d1 d2 dout Hok rho v). Qed.
+Print Assumptions C01_dot_result_is_placed_by_the_output.
+
+Example C01_dot_example :
+  (* "a (b c), c b d -> d a" with lengths a=2, b=3, c=4, d=5: no batch axis, contracted (b c) in the left operand's order *)
+  let d1 := [PAx 1 2 false; PFl [PAx 2 3 false; PAx 3 4 false]] in
+  let d2 := [PAx 3 4 false; PAx 2 3 false; PAx 4 5 false] in
+  let dout := [PAx 4 5 false; PAx 1 2 false] in
+  dot_ok d1 d2 dout = true /\ map psize (dot_lhs d1 d2 dout) = [1; 2; 12] /\ map psize (dot_rhs d1 d2 dout) = [1; 12; 5] /\
+  map psize (dot_mid d1 d2 dout) = [1; 2; 5].
+Proof. vm_compute. repeat split; reflexivity. Qed.
